@@ -183,6 +183,13 @@ class B:
         'core::future::into_future::IntoFuture::into_future',
     )
 
+    # combinators that keep the Ok/Some payload of their receiver unchanged
+    OK_PRESERVING = (
+        'core::option::Option::<T>::ok_or_else', 'core::option::Option::<T>::ok_or',
+        'core::result::Result::<T, E>::map_err', 'core::result::Result::<T, E>::or_else',
+        'core::result::Result::<T, E>::ok',
+    )
+
     def origin(self, op, depth=0, through_calls=True):
         """Backward slice of an operand to a canonical origin:
            ('const', value) | ('fnref', path) | ('arg', n, projs) |
@@ -230,6 +237,8 @@ class B:
     def _with_projs(base, projs):
         if not projs:
             return base
+        if base[0] == 'try' and projs[:2] == ('as:Continue', '0'):
+            return B._with_projs(B._payload(base[1]), projs[2:])
         if base[0] in ('arg', 'local'):
             return (base[0], base[1], tuple(base[2]) + projs)
         if base[0] == 'call':
@@ -238,6 +247,11 @@ class B:
             # project into an aggregate: pick the operand
             return ('proj', base, projs)
         return ('proj', base, projs)
+
+    @staticmethod
+    def _payload(o):
+        """the Ok/Some payload of an Option/Result-valued origin (kept symbolic)"""
+        return ('payload', o) if o[0] != 'payload' else o
 
     def _origin_local(self, l, depth, through_calls):
         if depth > 40:
@@ -276,6 +290,12 @@ class B:
             if through_calls and g is not None and t['args']:
                 for n in (g, r):
                     if n and any(n == p or n.startswith(p) for p in self.PASS_THROUGH):
+                        return self.origin(t['args'][0], depth + 1, through_calls)
+                if g == 'core::ops::try_trait::Try::branch':
+                    # `x?`: the Continue payload is the Ok/Some payload of x
+                    return ('try', self.origin(t['args'][0], depth + 1, through_calls))
+                for n in (g, r):
+                    if n and n in self.OK_PRESERVING:
                         return self.origin(t['args'][0], depth + 1, through_calls)
             return ('call', r or g, bb, ())
 
@@ -473,3 +493,78 @@ class Program:
             if v not in index:
                 strong(v)
         return res
+
+
+# ----------------------------------------------------------------------------
+# generic helpers used by several property modules
+
+def fold(o):
+    """Fold an origin tree to an int constant when possible."""
+    if o is None:
+        return None
+    k = o[0]
+    if k == 'const':
+        return o[1] if isinstance(o[1], int) else None
+    if k == 'cast':
+        return fold(o[3])
+    if k == 'proj' and o[2] in (('0',), (0,)):
+        return fold(o[1])
+    if k == 'bin':
+        a, b = fold(o[2]), fold(o[3])
+        if a is None or b is None:
+            return None
+        op = o[1].replace('WithOverflow', '').replace('Unchecked', '')
+        try:
+            return {'Add': a + b, 'Sub': a - b, 'Mul': a * b, 'BitAnd': a & b, 'BitOr': a | b,
+                    'Shl': a << b, 'Shr': a >> b}.get(op)
+        except Exception:
+            return None
+    return None
+
+
+def dominating_edges(B, target):
+    """All switch edges (src_bb, value|'else', dst_bb) that every path entry->target takes."""
+    out = []
+    reach0 = B.reachable(0)
+    if target not in reach0:
+        return out
+    for i in sorted(reach0):
+        t = B.blocks[i]['t']
+        if t['k'] != 'switch':
+            continue
+        # group cases by destination: an edge is identified by (src,dst)
+        dsts = {}
+        for v, b in t['cases']:
+            dsts.setdefault(b, []).append(v)
+        dsts.setdefault(t['else'], []).append('else')
+        for dst, vals in dsts.items():
+            if target not in B.reachable(0, removed_edges=[(i, dst)]):
+                out.append((i, vals, dst))
+    return out
+
+
+def exclusive_blocks(B, starts):
+    """For each start block: the blocks reachable from it and from no other start."""
+    reach = {s: B.reachable(s) for s in starts}
+    out = {}
+    for s in starts:
+        others = set()
+        for s2 in starts:
+            if s2 != s:
+                others |= reach[s2]
+        out[s] = reach[s] - others
+    return out
+
+
+def snake(name):
+    out = []
+    for i, ch in enumerate(name):
+        if ch.isupper() and i > 0 and (not name[i - 1].isupper()):
+            out.append('_')
+        out.append(ch.lower())
+    return ''.join(out)
+
+
+def camel_from_upper(name):
+    """SEND_SENDER_TT -> SendSenderTt"""
+    return ''.join(p[:1].upper() + p[1:].lower() for p in name.split('_'))
